@@ -11,8 +11,8 @@
                                               per resource; `store/propstore.go` as a finite map with a fault stream
   Inputs of the model (universally quantified in the theorems): the delivery, the destination's answer to every
   executed-lookup (EVM/Substrate), the durable status map and the fault stream of the status store (BTC).
-  Not modelled: what happens after a session was started (TSS signing, submission — the submitted batch is the
-  signed batch by construction of `watchExecution`, not re-checked here).
+  Also: the lookup key (`lookupQuery`) and what is submitted when a signature arrives (`submitted`).
+  Not modelled: the TSS signing between the start of a session and the arrival of its signature.
 -/
 import SygmaModel.Base
 import SygmaModel.Model.C14
